@@ -43,8 +43,15 @@ def bounded_tasks(prop, tier):
 EXTRA = {}
 
 
+def c05_extra(tier):
+    from . import c03
+    return [Task("C05/collocation-quadrature-weights", c03.native_collocation, kind="enumerated", bound=dict(degree="1..7", schemes=["radau", "legendre"], tolerance=1e-9))]
+
+
 def tasks_for(prop, tier):
     out = []
+    if prop == "C05":
+        out += c05_extra(tier)
     if prop in BOUNDED_PARTS:
         out += bounded_tasks(prop, tier)
     try:
